@@ -550,8 +550,12 @@ def check_missions(chk: Check, variant, pairs):
     airports = {}
     cases = []
     codes = fresh_codes(2 * len(pairs))
+    by_xy: dict = {}                       # the same place is the same airport (hub missions share their origin)
     for i, (kind, a, b) in enumerate(pairs):
-        ca, cb = codes[2 * i], codes[2 * i + 1]
+        ca = by_xy.setdefault((a[0], a[1]), codes[2 * i])
+        cb = by_xy.setdefault((b[0], b[1]), codes[2 * i + 1])
+        if ca == cb:                       # identical coordinates: keep two airports
+            cb = codes[2 * i + 1]
         airports[ca], airports[cb] = a, b
         cases.append((kind, ca, cb, a, b))
     extra = write_airports(chk, airports)
@@ -690,6 +694,9 @@ def run(chk: Check):
              ('LHR-JFK', [-0.461941, 51.4706], [-73.7789, 40.6398]),
              ('SFO-SEA', [-122.374821, 37.619806], [-122.308998, 47.449001])]
     pairs = cpairs + fixed + [gen_pair(chk.rng) for _ in range(chk.n(150, 1500))]
+    # hub-and-spoke: one origin with many destinations (an answer cached per origin, or per airport, would show)
+    hub = pairs[len(cpairs) + len(fixed)][1]
+    pairs += [('hub', hub, p_[2]) for p_ in pairs[len(cpairs) + len(fixed) + 1:len(cpairs) + len(fixed) + 13]]
     check_missions(chk, variant, pairs)
 
 
